@@ -285,6 +285,32 @@ def check_timelimit(ctx, idx):
         ctx.phi_fail("timelimit_episode_has_exactly_N_steps", {"N": N, "lengths": ep_lengths})
 
 
+def check_timelimit_large(ctx):
+    """exactness for very long limits (beyond float32's 2^24 integer range): the limit's truncation is
+    raised at count N and not at N-1, for states placed directly at those counts and reached by one
+    real transition"""
+    rng = ctx.rng
+    env0 = random_tabular(rng, p_term=0.0, p_trunc=0.0)
+    env0 = eqx.tree_at(lambda e: (e.term, e.trunc), env0, (jnp.zeros_like(env0.term), jnp.zeros_like(env0.trunc)))
+    for N in [2**24 + 1, 2**24 + 3, 2**25 + 1, 2**30 + 1, 2**31 - 2]:
+        env = W.TimeLimit(env0, N)
+        s0 = env.initial(key=jr.key(0))
+        for count in (N - 2, N - 1):
+            st = eqx.tree_at(lambda s: s.step_count, s0, jnp.asarray(count, dtype=jnp.int32))
+            nxt = env.transition(st, jnp.asarray(0), key=jr.key(1))
+            got_here, got_next = bool(env.truncate(st)), bool(env.truncate(nxt))
+            exp = ctx.drv.call("wrap_expect", w={"w": "timeLimit", "n": N}, obs=[0.0, 0.0], reward=0.0,
+                               truncate=False, action=0.0, counters=[count + 1])
+            case = {"kind": "timelimit-large", "N": N, "count": count, "impl": {"truncate_at_count": got_here,
+                    "truncate_after_one_more_step": got_next, "next_count": int(nxt.step_count)},
+                    "expected": {"truncate_at_count": count >= N, "truncate_after_one_more_step": count + 1 >= N}}
+            ctx.case(case, True)
+            ctx.count("timelimit:large-N")
+            if got_here != (count >= N) or got_next != (count + 1 >= N) or exp["truncate"] != (count + 1 >= N) \
+                    or int(nxt.step_count) != count + 1:
+                ctx.phi_fail("timelimit_truncates_exactly_at_N", case, key="timelimit:large_N")
+
+
 # ------------------------------------------------------------------ adapters
 
 def check_adapters(ctx):
@@ -316,11 +342,11 @@ def check_adapters(ctx):
             st = m["state"]
     # GymToLeraxEnv over gymnasium CartPole-v1 vs a twin gymnasium env (same seed, same actions)
     import gymnasium
-    for rep in range(ctx.budget(1, 4)):
-        seed = int(rng.integers(0, 10_000))
+    for rep in range(ctx.budget(2, 5)):
+        seed = 0 if rep == 0 else int(rng.integers(0, 10_000))      # 0 is a legal explicit seed
         ad = GymToLeraxEnv(gymnasium.make("CartPole-v1"))
         twin = gymnasium.make("CartPole-v1")
-        state = ad.initial(key=jr.key(0), seed=seed)
+        state = ad.initial(key=jr.key(int(rng.integers(0, 1000))), seed=seed)
         tobs, _ = twin.reset(seed=seed)
         case = {"kind": "gym-to-lerax", "seed": seed}
         if not ctx.close(np.asarray(ad.observation(state, key=jr.key(0))), tobs, 4):
@@ -418,4 +444,5 @@ def run(ctx):
     for i in range(ctx.budget(6, 24)):
         check_timelimit(ctx, i)
         ctx.gc()
+    check_timelimit_large(ctx)
     check_adapters(ctx)
